@@ -176,6 +176,47 @@ theorem write_ok_of_writable (N : NumOps) (s : FileSink) (r : Json) (hp : s.pois
   rw [hp, formatResponse_of_writable hw]
   simp [recordOf]
 
+/-! ### Combined sinks -/
+
+theorem isObject_postOf (N : NumOps) (f : Format) (r : Json) (h : r.isObject = true) :
+    (postOf N f r).isObject = true := by
+  have hw := writable_of_obj_or_null N f r (Or.inl h)
+  have hf := formatResponse_of_writable hw
+  cases f with
+  | json nd =>
+    simp only [formatResponse, Outcome.ok.injEq, Prod.mk.injEq] at hf
+    rw [← hf.2]; exact h
+  | csv m s =>
+    rcases (formatResponse_csv_cases N m s r _ _ hf).2 with e | e
+    · rw [e]; exact h
+    · cases r with
+      | obj kvs =>
+        simp only [Json.indexAssign, Option.some.injEq] at e
+        rw [← e]; rfl
+      | _ => simp [Json.isObject] at h
+
+/-- every member got exactly one more chunk and one more count -/
+def AppendedOne : List FileSink → List FileSink → Prop
+  | [], [] => True
+  | s :: ss, s' :: ss' =>
+    (∃ row, s'.file = s.file ++ [record row] ∧ s'.iterations = s.iterations + 1 ∧ s'.format = s.format) ∧
+      AppendedOne ss ss'
+  | _, _ => False
+
+theorem writeCombined_objects (N : NumOps) (ss : List FileSink) (r : Json)
+    (hp : ∀ s ∈ ss, s.poisoned = false) (hr : r.isObject = true) :
+    ∃ ss' r', writeCombined N ss r = .ok ss' r' ∧ r'.isObject = true ∧ AppendedOne ss ss' := by
+  induction ss generalizing r with
+  | nil => exact ⟨[], r, rfl, hr, trivial⟩
+  | cons s ss ih =>
+    have hw := writable_of_obj_or_null N s.format r (Or.inl hr)
+    obtain ⟨s', hs', hfile, hit, hfmt, _, _⟩ :=
+      write_ok_of_writable N s r (hp s (List.mem_cons_self ..)) hw
+    obtain ⟨ss', r', hss', hobj, happ⟩ :=
+      ih (postOf N s.format r) (fun x hx => hp x (List.mem_cons_of_mem _ hx)) (isObject_postOf N s.format r hr)
+    refine ⟨s' :: ss', r', ?_, hobj, ⟨⟨_, hfile, hit, hfmt⟩, happ⟩⟩
+    simp only [writeCombined, hs', hss']
+
 /-! ### schedules -/
 
 theorem flatten_set_perm (qs : List (List Json)) (w : Nat) (r : Json) (rest : List Json)
@@ -291,6 +332,89 @@ theorem exec_progress (N : NumOps) (persist : Bool) (sched : List Nat) (s : Run)
       exact hw r (h₁.queues.subset (List.mem_append_right _ hr))
     obtain ⟨t₂, h₂⟩ := ih (s.step N persist w) h₁.poisoned hw' (by rw [h₁.retWidth, h₁.width, hlen])
     exact ⟨t₁ ++ t₂, by simpa [Run.exec] using h₁.trans h₂⟩
+
+/-! ### what each worker hands back, in order -/
+
+/-- per worker: what it has handed back so far followed by what its remaining queue will give -/
+def handBack (N : NumOps) (f : Format) (ret qs : List (List Json)) : List (List Json) :=
+  List.zipWith (fun a q => a ++ q.map (postOf N f)) ret qs
+
+theorem handBack_step (N : NumOps) (f : Format) (ret qs : List (List Json)) (w : Nat) (r : Json)
+    (rest : List Json) (h : qs[w]? = some (r :: rest)) :
+    handBack N f (pushAt ret w (postOf N f r)) (qs.set w rest) = handBack N f ret qs := by
+  unfold handBack pushAt
+  induction qs generalizing ret w with
+  | nil => simp at h
+  | cons q qs ih =>
+    cases ret with
+    | nil => simp
+    | cons a ret =>
+      cases w with
+      | zero =>
+        simp only [List.getElem?_cons_zero, Option.some.injEq] at h
+        subst h
+        simp
+      | succ w =>
+        simp only [List.getElem?_cons_succ] at h
+        simp only [List.modify_succ_cons, List.set_cons_succ, List.zipWith_cons_cons, ih ret w h]
+
+theorem step_handBack (N : NumOps) (s : Run) (w : Nat) (hp : s.sink.poisoned = false)
+    (hw : ∀ r ∈ s.queues.flatten, Writable N s.sink.format r) :
+    handBack N s.sink.format (s.step N true w).returned (s.step N true w).queues
+      = handBack N s.sink.format s.returned s.queues := by
+  unfold Run.step
+  cases hq : s.queues[w]? with
+  | none => rfl
+  | some q =>
+    cases q with
+    | nil => rfl
+    | cons r rest =>
+      have hperm := flatten_set_perm s.queues w r rest hq
+      have hmem : r ∈ s.queues.flatten := hperm.subset (List.mem_cons_self ..)
+      obtain ⟨s', hs', _⟩ := write_ok_of_writable N s.sink r hp (hw r hmem)
+      simp only [hs', if_true]
+      exact handBack_step N s.sink.format s.returned s.queues w r rest hq
+
+theorem exec_handBack (N : NumOps) (sched : List Nat) (s : Run) (hp : s.sink.poisoned = false)
+    (hw : ∀ r ∈ s.queues.flatten, Writable N s.sink.format r) (hlen : s.returned.length = s.queues.length) :
+    handBack N s.sink.format (s.exec N true sched).returned (s.exec N true sched).queues
+      = handBack N s.sink.format s.returned s.queues := by
+  induction sched generalizing s with
+  | nil => rfl
+  | cons w ws ih =>
+    obtain ⟨t₁, h₁⟩ := step_progress N true s w hp hw hlen
+    have hw' : ∀ r ∈ (s.step N true w).queues.flatten, Writable N (s.step N true w).sink.format r := by
+      intro r hr
+      rw [h₁.format]
+      exact hw r (h₁.queues.subset (List.mem_append_right _ hr))
+    have := ih (s.step N true w) h₁.poisoned hw' (by rw [h₁.retWidth, h₁.width, hlen])
+    rw [h₁.format] at this
+    simp only [Run.exec, List.foldl_cons] at this ⊢
+    rw [this]
+    exact step_handBack N s w hp hw
+
+theorem handBack_of_all_nil (N : NumOps) (f : Format) (ret qs : List (List Json))
+    (hlen : ret.length = qs.length) (h : ∀ q ∈ qs, q = []) : handBack N f ret qs = ret := by
+  unfold handBack
+  induction qs generalizing ret with
+  | nil => cases ret with
+    | nil => rfl
+    | cons a r => simp at hlen
+  | cons q qs ih =>
+    cases ret with
+    | nil => simp at hlen
+    | cons a ret =>
+      have hq : q = [] := h q (List.mem_cons_self ..)
+      subst hq
+      simp only [List.zipWith_cons_cons, List.map_nil, List.append_nil]
+      rw [ih ret (by simpa using hlen) (fun q' hq' => h q' (List.mem_cons_of_mem _ hq'))]
+
+theorem handBack_init (N : NumOps) (f : Format) (qs : List (List Json)) :
+    handBack N f (qs.map (fun _ => [])) qs = qs.map (fun q => q.map (postOf N f)) := by
+  unfold handBack
+  induction qs with
+  | nil => rfl
+  | cons q qs ih => simp only [List.map_cons, List.zipWith_cons_cons, List.nil_append, ih]
 
 theorem done_flatten_nil (s : Run) (h : s.done = true) : s.queues.flatten = [] := by
   unfold Run.done at h
